@@ -49,6 +49,20 @@ package volume
 //@ ensures[C05] "range" forall kk :: 0 <= kk && kk < len(result) ==> 0 - 1 <= result[kk] && result[kk] <= 1
 //@ ensures[C03] consumed(snapshots) == len(snapshots) && closed(result)
 //@ ensures[C04] forall kk :: 0 <= kk && kk < len(result) ==> hor(result, kk) <= hor(snapshots, kk)
+//@ rel[C18] "price" param lam real
+//@ rel[C18] "price" assume lam > 0 && len(second(snapshots)) == len(snapshots) && (forall k :: 0 <= k && k < len(snapshots) ==> pscaled(second(snapshots)[k], snapshots[k], lam))
+//@ rel[C18] "price" use forall j :: fiPrevVolS_pscale(closings, volumes, second(closings), second(volumes), lam, j)
+//@ rel[C18] "price" step forall j :: 0 <= j && j < len(snapshots) - 1 ==> fiPrevVolS(second(closings), second(volumes))[j] == lam * fiPrevVolS(closings, volumes)[j]
+//@ rel[C18] "price" use[cond] ema_scale(fiPrevVolS(closings, volumes), fiPrevVolS(second(closings), second(volumes)), lam, f.ForceIndex.Ema.Period, emam(f.ForceIndex.Ema), _)
+//@ rel[C18] "price" use forall i :: mul_cmp(lam, fis[i], 0)
+//@ rel[C18] "price" ensures len(second(result)) == len(result) && (forall k :: 0 <= k && k < len(result) ==> second(result)[k] == result[k])
+//@ rel[C18] "volume" param mu real
+//@ rel[C18] "volume" assume mu > 0 && len(second(snapshots)) == len(snapshots) && (forall k :: 0 <= k && k < len(snapshots) ==> vscaled(second(snapshots)[k], snapshots[k], mu))
+//@ rel[C18] "volume" use forall j :: fiPrevVolS_vscale(closings, volumes, second(closings), second(volumes), mu, j)
+//@ rel[C18] "volume" step forall j :: 0 <= j && j < len(snapshots) - 1 ==> fiPrevVolS(second(closings), second(volumes))[j] == mu * fiPrevVolS(closings, volumes)[j]
+//@ rel[C18] "volume" use[cond] ema_scale(fiPrevVolS(closings, volumes), fiPrevVolS(second(closings), second(volumes)), mu, f.ForceIndex.Ema.Period, emam(f.ForceIndex.Ema), _)
+//@ rel[C18] "volume" use forall i :: mul_cmp(mu, fis[i], 0)
+//@ rel[C18] "volume" ensures len(second(result)) == len(result) && (forall k :: 0 <= k && k < len(result) ==> second(result)[k] == result[k])
 
 //@ func MoneyFlowIndexStrategy.Compute
 //@ requires m.MoneyFlowIndex.Sum.Period >= 1 && consumed(snapshots) == 0
@@ -107,6 +121,24 @@ package volume
 //@ ensures[C05] "range" forall kk :: 0 <= kk && kk < len(result) ==> 0 - 1 <= result[kk] && result[kk] <= 1
 //@ ensures[C03] consumed(snapshots) == len(snapshots) && closed(result)
 //@ ensures[C04] forall kk :: 0 <= kk && kk < len(result) ==> hor(result, kk) <= hor(snapshots, kk)
+//@ rel[C18] "price" param lam real
+//@ rel[C18] "price" assume lam > 0 && len(second(snapshots)) == len(snapshots) && (forall k :: 0 <= k && k < len(snapshots) ==> pscaled(second(snapshots)[k], snapshots[k], lam))
+//@ rel[C18] "price" assume forall j :: 0 <= j ==> winS(arg(Vwap_Compute, 0, 1), v.WeightedAveragePrice.Sum.Period)[j] != 0
+//@ rel[C18] "price" step forall j :: 0 <= j && j < len(snapshots) ==> second(arg(Vwap_Compute, 0, 0))[j] == lam * arg(Vwap_Compute, 0, 0)[j] && second(arg(Vwap_Compute, 0, 1))[j] == arg(Vwap_Compute, 0, 1)[j]
+//@ rel[C18] "price" step forall i :: 0 <= i && i < len(closingsSplice[0]) ==> second(closingsSplice[0])[i] == lam * closingsSplice[0][i]
+//@ rel[C18] "price" use[cond] vwmaS_pscale(arg(Vwap_Compute, 0, 0), arg(Vwap_Compute, 0, 1), second(arg(Vwap_Compute, 0, 0)), second(arg(Vwap_Compute, 0, 1)), lam, v.WeightedAveragePrice.Sum.Period, len(snapshots), _)
+//@ rel[C18] "price" step forall i :: 0 <= i && i < len(vwaps) ==> second(vwaps)[i] == lam * vwaps[i]
+//@ rel[C18] "price" use forall i :: mul_cmp(lam, vwaps[i], closingsSplice[0][i])
+//@ rel[C18] "price" ensures len(second(result)) == len(result) && (forall k :: 0 <= k && k < len(result) ==> second(result)[k] == result[k])
+//@ rel[C18] "volume" param mu real
+//@ rel[C18] "volume" assume mu > 0 && len(second(snapshots)) == len(snapshots) && (forall k :: 0 <= k && k < len(snapshots) ==> vscaled(second(snapshots)[k], snapshots[k], mu))
+//@ rel[C18] "volume" assume forall j :: 0 <= j ==> winS(arg(Vwap_Compute, 0, 1), v.WeightedAveragePrice.Sum.Period)[j] != 0
+//@ rel[C18] "volume" step forall j :: 0 <= j && j < len(snapshots) ==> second(arg(Vwap_Compute, 0, 0))[j] == arg(Vwap_Compute, 0, 0)[j] && second(arg(Vwap_Compute, 0, 1))[j] == mu * arg(Vwap_Compute, 0, 1)[j]
+//@ rel[C18] "volume" step forall i :: 0 <= i && i < len(closingsSplice[0]) ==> second(closingsSplice[0])[i] == 1 * closingsSplice[0][i]
+//@ rel[C18] "volume" use[cond] vwmaS_vscale(arg(Vwap_Compute, 0, 0), arg(Vwap_Compute, 0, 1), second(arg(Vwap_Compute, 0, 0)), second(arg(Vwap_Compute, 0, 1)), mu, v.WeightedAveragePrice.Sum.Period, len(snapshots), _)
+//@ rel[C18] "volume" step forall i :: 0 <= i && i < len(vwaps) ==> second(vwaps)[i] == 1 * vwaps[i]
+//@ rel[C18] "volume" use forall i :: mul_cmp(1, vwaps[i], closingsSplice[0][i])
+//@ rel[C18] "volume" ensures len(second(result)) == len(result) && (forall k :: 0 <= k && k < len(result) ==> second(result)[k] == result[k])
 
 // ---- reports (C14): every column has one value per date row; rows carry that date's close, annotation, outcome ----
 //@ func ChaikinMoneyFlowStrategy.Report
